@@ -57,7 +57,7 @@ func InRange(count, base, max int64, mult, rnd float64) bool {
 
 // Delay checks a delay (not the stop signal) against the statement of C18: never negative, never above max,
 // inside the jitter band [P - rnd/2*base, P + rnd/2*base] (P = base*mult^count) up to a relative tolerance of
-// 1e-12 plus 1 ns while that band lies below max, exactly max once the band lies above max.
+// 1e-12 + count*2^-51 plus 1 ns while that band lies below max, exactly max once the band lies above max.
 // Returns "" when fine, else (class, detail).
 func Delay(count, base, max int64, mult, rnd float64, got int64) (string, string) {
 	if got < 0 {
@@ -77,7 +77,9 @@ func Delay(count, base, max int64, mult, rnd float64, got int64) (string, string
 	half := new(big.Float).SetPrec(prec).Mul(bf(rnd/2), bi(base))
 	lo := new(big.Float).SetPrec(prec).Sub(P, half)
 	hi := new(big.Float).SetPrec(prec).Add(P, half)
-	tol := new(big.Float).SetPrec(prec).Mul(hi, bf(1e-12))
+	// relative tolerance: float rounding of the formula (1e-12) plus what math.Pow itself may lose: it squares
+	// repeatedly, so its relative error grows like count * 2^-53 (observed 1.2e-7 for mult = 1+2^-52, count = 2^56)
+	tol := new(big.Float).SetPrec(prec).Mul(hi, bf(1e-12+float64(count)*0x1p-51))
 	tol.Add(tol, bi(1))
 	loT := new(big.Float).SetPrec(prec).Sub(lo, tol)
 	hiT := new(big.Float).SetPrec(prec).Add(hi, tol)
@@ -143,7 +145,7 @@ func Z(v int64) string {
 	return fmt.Sprintf("(zn %d)", -v)
 }
 func Bits(b uint64) string { return fmt.Sprintf("(zb %d %d)", b>>32, b&0xffffffff) }
-func Nat(v int) string    { return fmt.Sprintf("(ni %d)", v) }
+func Nat(v int) string     { return fmt.Sprintf("(ni %d)", v) }
 
 // ---- generators shared by both harnesses
 const Days30 = 2_592_000_000_000_000
